@@ -320,7 +320,49 @@ def chk_adc_bad(case, acc, seed):
     acc.case(case, outcome='bad')
 
 
-DISPATCH = {'collect': chk_collect, 'bayer': chk_bayer, 'adc': chk_adc, 'adcmono': chk_adc_monotone, 'adcbad': chk_adc_bad}
+def chk_big(case, acc, seed):
+    """detector-sized inputs: the same per-pixel laws (vectorised reference)"""
+    import lentil
+    rng = np.random.default_rng(77 + seed)
+    if case['what'] == 'collect':
+        nw, shape = case['nw'], tuple(case['shape'])
+        img = rng.random((nw,) + shape) * 40
+        qv = np.linspace(0.2, 0.9, nw)
+        waves = np.linspace(450., 650., nw)
+        exp = np.tensordot(qv, img, axes=(0, 0))
+        for name, qe in (('vector', qv), ('scalar', 0.5)):
+            try:
+                got = np.asarray(lentil.detector.collect_charge(img, waves, qe))
+            except Exception as e:
+                acc.violation(f'collect:big:raises:{type(e).__name__}', dict(case, qe=name), repr(e))
+                continue
+            want = exp if name == 'vector' else 0.5 * img.sum(0)
+            if got.shape != want.shape or rm.maxerr(got, want) > 1e-9:
+                acc.violation(f'collect:big:{name}', dict(case, qe=name), f'result shape {got.shape} (want {want.shape}), max error {rm.maxerr(got, want) if got.shape == want.shape else "n/a"}')
+    else:
+        pat, os_, shape = case['pattern'], case['os'], tuple(case['shape'])
+        k = int(round(len(pat) ** 0.5))
+        img = rng.random((2,) + shape) * 9 + 1
+        qe = {'R': np.array([0.1, 0.3]), 'G': np.array([0.2, 0.9]), 'B': np.array([0.7, 0.15])}
+        rr, cc = np.indices(shape)
+        P = np.array([list(pat[i * k:(i + 1) * k]) for i in range(k)])
+        colour = P[(rr // os_) % k, (cc // os_) % k]
+        exp = np.zeros(shape)
+        for c in 'RGB':
+            exp += np.where(colour == c, np.tensordot(qe[c], img, axes=(0, 0)), 0.0)
+        try:
+            got = np.asarray(lentil.detector.collect_charge_bayer(img, [450., 650.], qe['R'], qe['G'], qe['B'], pat, oversample=os_))
+        except Exception as e:
+            acc.violation(f'bayer:big:raises:{type(e).__name__}', case, repr(e))
+            return
+        if got.shape != exp.shape or rm.maxerr(got, exp) > 1e-9:
+            bad = np.argwhere(np.abs(got - exp) > 1e-9) if got.shape == exp.shape else []
+            acc.violation('bayer:big:wrong-colour', case, f'{len(bad)} sub-pixels of a {shape} frame use the wrong efficiency (first at row {bad[0][0] if len(bad) else "?"})')
+    acc.cls('big-frames')
+    acc.case(case, outcome='big')
+
+
+DISPATCH = {'big': chk_big, 'collect': chk_collect, 'bayer': chk_bayer, 'adc': chk_adc, 'adcmono': chk_adc_monotone, 'adcbad': chk_adc_bad}
 
 
 DISPATCH['histop'] = histories.chk_case
@@ -349,6 +391,10 @@ def t_bayer(arg, acc):
 def t_other(arg, acc):
     seed = arg['seed']
     if arg['what'] == 'collect':
+        chk_big({'kind': 'big', 'what': 'collect', 'nw': 5, 'shape': (1200, 800)}, acc, seed)
+        chk_big({'kind': 'big', 'what': 'collect', 'nw': 3, 'shape': (700, 2100)}, acc, seed)
+        for pat, os_, shape in (('RGGB', 3, (1026, 18)), ('RGGB', 5, (1030, 20)), ('RGBGBRBRG', 1, (1026, 9)), ('GRBG', 2, (1028, 8)), ('RGGB', 3, (12, 1026))):
+            chk_big({'kind': 'big', 'what': 'bayer', 'pattern': pat, 'os': os_, 'shape': shape}, acc, seed)
         for nw in (1, 2, 3):
             for shape in ((1, 1), (2, 2), (2, 3)):
                 acc.transitions += 1
@@ -394,7 +440,7 @@ def run(tier, seed, acc, procs=None):
         'assumptions': ['dyadic electron counts and gains: every intermediate is exact in binary floating point',
                         'pattern strings are read row-major'],
         'require': {'bayer:k=2': 1000, 'bayer:k=3': 1000, 'bayer:os=3': 500, 'bayer:os=4': 500, 'adc:polynomial': 50, 'adc:per-pixel': 20,
-                    'adc:per-pixel-polynomial': 20, 'adc:scalar': 20, 'collect': 9, 'collect:edited-spectrum': 50, 'adc:singleton-axis': 50, 'bayer:2d': 50},
+                    'adc:per-pixel-polynomial': 20, 'adc:scalar': 20, 'collect': 9, 'collect:edited-spectrum': 50, 'adc:singleton-axis': 50, 'bayer:2d': 50, 'big-frames': 7},
     }
 
 
